@@ -115,18 +115,21 @@ Fixpoint find_glob (es : list (str * node)) (pat : str) (i : nat) : res (list na
       Ok (if b then i :: t else t)
   end.
 
+(* a pattern selects every matching key in document order; with no match it is auto-created literally *)
+Definition trav_map_pat (ro : bool) (k : str) (p : ptr) (es : list (str * node)) (st : store) : res out :=
+  let* idxs := find_glob es k O in
+  match idxs with
+  | [] =>
+      if ro then Ok ([], st)
+      else
+        let st' := update st p (fun _ => Map (es ++ [(k, null_node)])) in
+        Ok ([(fst p, snd p ++ [length es])], st')
+  | _ => Ok (map (fun i => (fst p, snd p ++ [i])) idxs, st)
+  end.
+
+(* on a key without * and ? the pattern branch is this exact-key branch (Proofs/GlobProofs.v, trav_map_one_definition) *)
 Definition trav_map (ro : bool) (k : str) (p : ptr) (es : list (str * node)) (st : store) : res out :=
-  if is_wild k then
-    (* a pattern selects every matching key in document order; with no match it is auto-created literally *)
-    let* idxs := find_glob es k O in
-    match idxs with
-    | [] =>
-        if ro then Ok ([], st)
-        else
-          let st' := update st p (fun _ => Map (es ++ [(k, null_node)])) in
-          Ok ([(fst p, snd p ++ [length es])], st')
-    | _ => Ok (map (fun i => (fst p, snd p ++ [i])) idxs, st)
-    end
+  if is_wild k then trav_map_pat ro k p es st
   else
   match find_key es k O with
   | [] =>
